@@ -609,7 +609,7 @@ R.spec(F, "InMemoryStorage.get_trial_id_from_study_id_trial_number", props=["C01
               case("ok", ensures=["has_trial(self, result)", "sid_of(self, result) == study_id", "num_of(self, result) == trial_number"])],
        ensures_all=["same_storage(self)"])
 
-R.spec(F, "InMemoryStorage.get_best_trial", props=["C12", "C01", "C03"], guarded_by=GUARD,
+R.spec(F, "InMemoryStorage.get_best_trial", props=["C12", "C01", "C03", "C13"], guarded_by=GUARD,
        requires=INV,
        cases=[
            case("missing", when=NOT_FOUND_S, raises="KeyError"),
